@@ -220,3 +220,32 @@ pub fn order_sensitive(f: &mut dyn FnMut(G)) {
         }
     }
 }
+
+/// pairs of within-word expressions over one small vocabulary (shapes whose compiled automata
+/// have the same structure over permuted input pools, equal languages spelled differently, ...)
+pub fn twin_words(k: usize, f: &mut dyn FnMut(G)) {
+    let v = Vocab { descrs: vec![], word: false, ..Vocab::basic(vec![E::lit("p"), E::lit("q"), E::lit("r")]) };
+    let en = Enumerator::new(v, k.min(4));
+    let mut ws: Vec<E> = vec![];
+    for n in 2..=k {
+        en.for_each(n, true, &mut |e| {
+            if let E::Seq(cs) = e {
+                ws.push(E::Word(cs.clone()));
+            }
+        });
+    }
+    for w1 in &ws {
+        for w2 in &ws {
+            f(call(E::Alt(vec![E::Seq(vec![w1.clone(), E::lit("x")]), E::Seq(vec![w2.clone(), E::lit("y")])])));
+            f(call(E::Fb(vec![w1.clone(), w2.clone()])));
+        }
+    }
+    // one definition used at two fallback levels
+    let vb = Vocab { descrs: vec![], word: false, ..Vocab::basic(vec![E::lit("a"), E::lit("b")]) };
+    let enb = Enumerator::new(vb, 3);
+    enb.for_each_upto(3, &mut |b| {
+        for main in [E::Fb(vec![E::r("X"), E::r("X")]), E::Fb(vec![E::r("X"), E::r("X"), E::lit("b")]), E::Many(Box::new(E::Fb(vec![E::r("X"), E::r("X")]))), E::Fb(vec![E::lit("b"), E::r("X"), E::r("X")])] {
+            f(G { stmts: vec![Stmt::Call { name: CMD.into(), expr: main }, def("X", E::Word(vec![E::lit("a"), E::r("Y")])), def("Y", b.clone())] });
+        }
+    });
+}
